@@ -18,6 +18,10 @@ Per transition (every execution applies exactly these handlers):
   or of the output buffer, the AGV stands at the destination and no longer claims the job;
 * `c07_arrival_on_time` – in every execution a busy AGV's arrival time is never in the past, so
   the delivery (created only when due) fires exactly at the arrival time.
+
+Composed over whole episodes: `c07_route_destination` (where a claimed job is taken) and
+**`c07_start_after_predecessor_plus_travel`** – the "hence" of the property: an operation never
+starts earlier than its predecessor's end plus the (constant) travel time between the two machines.
 -/
 
 namespace JSL
@@ -164,5 +168,23 @@ theorem c07_route_destination {ec : EnvCfg} {st : RewardStatic} {s0 σ : State} 
   rw [hc] at this
   simp at this
   rw [hstore, this]
+
+/-- **An operation never starts earlier than its predecessor's end plus the travel time between
+the two machines.**  In every state an episode exposes (reset, then any agent actions; sub-states
+and the post-state of every applied transition included): for consecutive operations `a`, `b` of a
+job, `a` finished at `e`, `b` started at `x` (its setup, once it is processed its processing), and
+a constant travel time `d` configured from `a`'s machine to `b`'s machine – the matrix entry for the
+direction actually travelled – `e + d ≤ x`.  (Proved from the invariant that, before `b` starts, the
+job lies in the post-buffer of `a`'s machine, or on an AGV that arrives no earlier than `e + d`, or
+in the pre-buffer of `b`'s machine at a time no earlier than `e + d`: `Inv/Travel.lean`.) -/
+theorem c07_start_after_predecessor_plus_travel {ec : EnvCfg} {st : RewardStatic} {s0 σ : State} (hst : Start orc inst s0)
+    (h : Exposed orc inst ec st s0 σ) (j : JobState) (hj : j ∈ σ.jobs) (a b : OpState) (l1 l2 : List OpState)
+    (hadj : j.ops = l1 ++ a :: b :: l2) (ha : a.st = .done) (e : Int) (he : a.stop = some e) (d : Int)
+    (hd : travelCfg inst (.m a.machine) (.m b.machine) = some (.det d)) (hb : b.st ≠ .idle) (x : Int)
+    (hx : b.start = some x) : e + d ≤ x :=
+  exposed_travel hst h j hj a b ⟨l1, l2, hadj⟩ ha e he d hd hb x hx
+
+/-- non-vacuity: the example instance has a constant travel time between its machines -/
+example : travelCfg Ex.inst (.m 0) (.m 1) = some (.det 2) := by decide
 
 end JSL
